@@ -230,7 +230,7 @@ RangeItems(items, last, acc) ==
        IF ~Has(item, DASH) THEN bad
        ELSE IF item[1] = DASH
             THEN LET n == PlainInt(item) IN
-                 IF last = NONE \/ ~n.ok THEN bad
+                 IF last = NONE \/ ~n.ok \/ n.d = ZERO THEN bad        \* a suffix length of zero is rejected
                  ELSE RangeItems(Tail(items), NONE, Append(acc, [neg |-> n.neg, b |-> n.d, e |-> NONE]))
        ELSE LET e == First(item, DASH)
                 bs == PlainInt(Take(item, e - 1))
@@ -317,7 +317,7 @@ AgeUnmodelled(s) == \E i \in 1..Len(s) : s[i] >= 128 /\ ~IsSpace(s[i])      \* n
 DomAge(d) == IsNum(d) /\ DLeq(d, MAXAGE)
 
 \* ---- IfRange (entity-tag half; the date half uses HttpDate below) -----------------------------
-\* value: [etag |-> text | NONE, date |-> <<y, mo, d, h, mi, s, offsetMinutes>> | NONE]
+\* value: [etag |-> text | NONE, date |-> <<y, mo, d, h, mi, s, offsetSeconds>> | NONE]
 UnquoteEtag(t) == LET s == Strip(t)
                       w == Len(s) >= 2 /\ s[1] \in {87, 119} /\ s[2] = SLASH
                       e == IF w THEN Drop(s, 2) ELSE s IN
@@ -340,8 +340,8 @@ MonthLen(y, m) == IF m = 2 THEN (IF IsLeap(y) THEN 29 ELSE 28) ELSE IF m \in {4,
 RECURSIVE DaysBeforeMonth(_, _)
 DaysBeforeMonth(y, m) == IF m = 1 THEN 0 ELSE DaysBeforeMonth(y, m - 1) + MonthLen(y, m - 1)
 Ordinal(y, m, d) == DaysBeforeYear(y) + DaysBeforeMonth(y, m) + d
-\* instant = <<ordinal day, second of day>> in UTC of a civil time with an offset in minutes
-Instant(v) == LET secs == v[4] * 3600 + v[5] * 60 + v[6] - v[7] * 60
+\* instant = <<ordinal day, second of day>> in UTC of a civil time <<y, mo, d, h, mi, s, utc offset in seconds>>
+Instant(v) == LET secs == v[4] * 3600 + v[5] * 60 + v[6] - v[7]
                   day == Ordinal(v[1], v[2], v[3]) IN
               IF secs < 0 THEN <<day - 1, secs + 86400>> ELSE IF secs >= 86400 THEN <<day + 1, secs - 86400>> ELSE <<day, secs>>
 RECURSIVE YearOf(_, _)
@@ -368,6 +368,6 @@ IsImf(s) == /\ Len(s) = 29 /\ s[4] = COMMA /\ s[5] = SP /\ s[8] = SP /\ s[12] = 
 \* IMF-fixdate text -> instant (defined on IsImf texts)
 ParseImf(s) == <<Ordinal(N2(s, 13) * 100 + N2(s, 15), MonIdx(SubSeq(s, 9, 11)), N2(s, 6)), N2(s, 18) * 3600 + N2(s, 21) * 60 + N2(s, 24)>>
 DomDate(v) == /\ v[1] \in 1..9999 /\ v[2] \in 1..12 /\ v[3] \in 1..MonthLen(v[1], v[2])
-              /\ v[4] \in 0..23 /\ v[5] \in 0..59 /\ v[6] \in 0..59 /\ v[7] > 0 - 1440 /\ v[7] < 1440
+              /\ v[4] \in 0..23 /\ v[5] \in 0..59 /\ v[6] \in 0..59 /\ v[7] > 0 - 86400 /\ v[7] < 86400
               /\ LET n == Instant(v)[1] IN n >= Ordinal(1000, 1, 1) /\ n <= Ordinal(9999, 12, 31)
 =============================================================================
